@@ -113,6 +113,17 @@ fn run_one<C: GenericConfig<D, F = F>>(
     };
     let common = &data.common;
     let prover = &data.prover_only;
+    // FRI-side admissibility (spec/Configs.tla FriAdmissible) for the degree of this circuit
+    if cfg.fri_admissible(common.degree_bits()).is_err() {
+        return skip("inadmissible FRI schedule for this degree");
+    }
+    if cfg.strat == "minsize" {
+        let ar = &common.fri_params.reduction_arity_bits;
+        let sum: usize = ar.iter().sum();
+        if common.degree_bits() + cfg.rate < sum + cfg.cap {
+            return skip("inadmissible: MinSize schedule folds below the cap height");
+        }
+    }
     let pw = match prog::witness(&built, inputs, &it.vals) {
         Ok(pw) => pw,
         Err(_) => return skip("witness"),
